@@ -11,6 +11,13 @@ quantifier — "every REPORTED package": `ScanContainer` reports exactly the pac
 final view — not a restriction of the inputs, so the theorems are not `_partial`. The earlier hidden
 assumption "extraction never fails" is gone: the context may be cancelled at any point (`cancelAt`),
 and the theorems say what is reported then.
+
+On the view abstraction (audit item "private per-file abstraction"): `viewAt` is the fold of the file's
+own keep/write/symlink/delete ops, i.e. the OCI rule restricted to one path whose ancestors are plain
+directories. That the real views obey it is C04's property, not C05's; here it is tied to the code only
+by the correspondence run on real images (the generator deletes with the file's own whiteout, never via
+an ancestor, and says so in its rule). Package identity is (name, location) = (Nat, file index); one
+extractor per file is a standing modelling assumption because the cache key omits the extractor.
 -/
 import Scalibr.Proofs.Trace
 namespace Scalibr.Trace
